@@ -154,11 +154,11 @@ pub struct Plan {
 pub fn plan(tier: Tier) -> Plan {
     match tier {
         Tier::Quick => Plan {
-            phases: vec![("Σ1", SIGMA1, 0, 2, false), ("Σ2", SIGMA2, 1, 1, true), ("Σ1core", SIGMA1_CORE, 3, 3, false), ("Σ2", SIGMA2, 2, 2, true)],
+            phases: vec![("Σ1", SIGMA1, 0, 2, false), ("Σ2", SIGMA2, 1, 1, true), ("Σ3", SIGMA3, 0, 1, true), ("Σ1core", SIGMA1_CORE, 3, 3, false), ("Σ2", SIGMA2, 2, 2, true), ("Σ3", SIGMA3, 2, 2, true)],
             std_excerpt_max: 300,
         },
         Tier::Thorough => Plan {
-            phases: vec![("Σ1", SIGMA1, 0, 2, false), ("Σ2", SIGMA2, 1, 2, true), ("Σ1core", SIGMA1_CORE, 3, 4, false), ("Σ1", SIGMA1, 3, 3, false)],
+            phases: vec![("Σ1", SIGMA1, 0, 2, false), ("Σ2", SIGMA2, 1, 2, true), ("Σ3", SIGMA3, 0, 2, true), ("Σ1core", SIGMA1_CORE, 3, 4, false), ("Σ1", SIGMA1, 3, 3, false), ("Σ3", SIGMA3, 3, 3, true)],
             std_excerpt_max: 1500,
         },
     }
@@ -188,7 +188,7 @@ pub fn run(args: &Args) -> ! {
 
     for (name, sigma, min_k, max_k, std) in &pl.phases {
         let (st, done) = par_words(sigma.len(), *min_k, *max_k, args.threads, &dl, |w, st| {
-            let text = word_text(sigma, w);
+            let text = phase_text(name, sigma, w);
             let sample = w.len() >= 2 && w[0] == 1 && w[1] == 0;
             check_doc(&text, *std, st, name, sample);
         });
